@@ -3,7 +3,7 @@ import os, shutil, subprocess, sys, tempfile
 patch, props = sys.argv[1], sys.argv[2]
 tmp = tempfile.mkdtemp(prefix="pysnark-sa-")
 try:
-    p1 = subprocess.Popen(["git", "-C", "/repo", "archive", "HEAD", "pysnark", "examples"], stdout=subprocess.PIPE)
+    p1 = subprocess.Popen(["git", "-C", "/repo", "archive", "HEAD"], stdout=subprocess.PIPE)
     subprocess.check_call(["tar", "-x", "-C", tmp], stdin=p1.stdout); p1.wait()
     subprocess.check_call(["git", "init", "-q"], cwd=tmp)
     r = subprocess.run(["git", "apply", "--whitespace=nowarn", os.path.abspath(patch)], cwd=tmp, capture_output=True, text=True)
